@@ -425,12 +425,12 @@ struct EGioFile_st {int type; void*file;};
 /* ========================================================================= */
 int EGioWrite(EGioFile_t*file,const char*const string)
 {
-	char buf[EGio_BUFSIZE];
+	/* write the string itself: copying it into a fixed buffer used to cut
+	 * everything beyond EGio_BUFSIZE-1 characters (e.g. a long number) */
+	const char *buf = string;
 	int len;
-	buf[EGio_BUFSIZE-1] = 0;
-	snprintf(buf,EGio_BUFSIZE,"%s",string);
-	len = strlen(buf);
-	if(len<=0 || len >= EGio_BUFSIZE || buf[EGio_BUFSIZE-1]!=0) return 0;
+	len = (int) strlen(buf);
+	if(len<=0) return 0;
 	switch(file->type)
 	{
 		case EGIO_PLAIN:
@@ -457,13 +457,26 @@ int EGioWrite(EGioFile_t*file,const char*const string)
 /* ========================================================================= */
 int EGioPrintf(EGioFile_t*file,const char* format, ...)
 {
-	char buf[EGio_BUFSIZE];
+	char sbuf[EGio_BUFSIZE];
+	char *buf = sbuf;
+	int need, rval;
 	va_list va;
-	buf[EGio_BUFSIZE-1]=0;
 	va_start(va,format);
-	vsnprintf(buf,EGio_BUFSIZE,format,va);
+	need = vsnprintf(sbuf,EGio_BUFSIZE,format,va);
 	va_end(va);
-	return EGioWrite(file,buf);
+	if(need < 0) return 0;
+	if(need >= EGio_BUFSIZE)
+	{
+		/* does not fit: format again into a buffer of the right size */
+		buf = (char*)malloc((size_t)need + 1);
+		if(!buf) return 0;
+		va_start(va,format);
+		vsnprintf(buf,(size_t)need + 1,format,va);
+		va_end(va);
+	}
+	rval = EGioWrite(file,buf);
+	if(buf != sbuf) free(buf);
+	return rval;
 }
 /* ========================================================================= */
 EGioFile_t* EGioOpenFILE(FILE*ifile)
